@@ -8,8 +8,10 @@ package main
 // re-implementation of "proves a valid credential /\ the level qualifies".
 
 import (
+	"bytes"
 	"crypto"
 	"crypto/ecdsa"
+	"crypto/ed25519"
 	"crypto/elliptic"
 	"crypto/rand"
 	"crypto/rsa"
@@ -18,6 +20,7 @@ import (
 	"crypto/x509/pkix"
 	"encoding/base64"
 	"encoding/json"
+	"encoding/pem"
 	"fmt"
 	"io/ioutil"
 	"math/big"
@@ -32,8 +35,71 @@ import (
 
 	"github.com/Cloud-Foundations/keymaster/lib/certgen"
 	"github.com/go-jose/go-jose/v4"
+	"golang.org/x/crypto/openpgp"
+	"golang.org/x/crypto/openpgp/armor"
+	"golang.org/x/crypto/ssh"
 	"golang.org/x/time/rate"
 )
+
+// ---------------------------------------------------------------- key files
+
+// PGP-armoured symmetric encryption, the format of the CA key files
+func c01Armor(plaintext []byte, pass string) []byte {
+	buf := new(bytes.Buffer)
+	aw, err := armor.Encode(buf, "PGP MESSAGE", nil)
+	c01Must(err)
+	pw, err := openpgp.SymmetricallyEncrypt(aw, []byte(pass), nil, nil)
+	c01Must(err)
+	pw.Write(plaintext)
+	c01Must(pw.Close())
+	c01Must(aw.Close())
+	return buf.Bytes()
+}
+
+func c01NewEdKey() (ed25519.PrivateKey, []byte) {
+	_, priv, err := ed25519.GenerateKey(rand.Reader)
+	c01Must(err)
+	der, err := x509.MarshalPKCS8PrivateKey(priv)
+	c01Must(err)
+	return priv, pem.EncodeToMemory(&pem.Block{Type: "PRIVATE KEY", Bytes: der})
+}
+
+func c01AuthorizedKeyLine(pub crypto.PublicKey) []byte {
+	sp, err := ssh.NewPublicKey(pub)
+	c01Must(err)
+	return bytes.TrimSpace(ssh.MarshalAuthorizedKey(sp))
+}
+
+// the public key of the state's own main CA key, as generateNewConfig wrote it next to the key file
+func c01OwnMainPubLine(c *AppConfigFile) []byte {
+	b, err := ioutil.ReadFile(c.Base.SSHCAFilename + ".pub")
+	c01Must(err)
+	return bytes.TrimSpace(b)
+}
+
+// configure keymaster_public_keys_filename with the given authorized_keys lines
+func c01WritePublicKeys(c *AppConfigFile, dir string, lines [][]byte) {
+	var out []byte
+	for _, l := range lines {
+		out = append(out, l...)
+		out = append(out, '\n')
+	}
+	fn := filepath.Join(dir, "keymasterPublicKeys")
+	c01Must(ioutil.WriteFile(fn, out, 0644))
+	c.Base.KeymasterPublicKeysFilename = fn
+}
+
+// Only the Ed25519 signer and its CA certificate are present, the main signer is not (the state a
+// half-finished load leaves behind): built by assignment, whatever the loading code does today.
+func (env *verifEnv) c01HalfLoad(edPriv ed25519.PrivateKey) {
+	st := env.state
+	der, err := certgen.GenSelfSignedCACert(st.HostIdentity, st.HostIdentity, edPriv)
+	c01Must(err)
+	st.Mutex.Lock()
+	st.Ed25519Signer = edPriv
+	st.caCertDer = append(st.caCertDer, der)
+	st.Mutex.Unlock()
+}
 
 // ---------------------------------------------------------------- configurations
 
@@ -155,6 +221,7 @@ type c01Shape struct {
 type c01Material struct {
 	envU        *verifEnv // unsealed state, owner of the signer
 	keys        *verifKeys
+	edUserKey   string // authorized_keys line of an ssh-ed25519 user key
 	foreignRSA  *rsa.PrivateKey
 	foreignCA   *x509.Certificate
 	foreignKey  *ecdsa.PrivateKey
@@ -216,6 +283,9 @@ func c01NewMaterial(t *testing.T, envU *verifEnv, deniedKey *ecdsa.PrivateKey) *
 	m := &c01Material{envU: envU, keys: verifNewKeys(), static: map[string]string{}, chains: map[string][][]*x509.Certificate{},
 		issuer: envU.state.idpGetIssuer(), deniedKey: deniedKey, limiterOpen: rate.NewLimiter(rate.Inf, 1)}
 	var err error
+	edUserPub, _, err := ed25519.GenerateKey(rand.Reader)
+	c01Must(err)
+	m.edUserKey = string(c01AuthorizedKeyLine(edUserPub)) + " verif-ed@harness\n"
 	m.foreignRSA, err = rsa.GenerateKey(rand.Reader, 2048)
 	c01Must(err)
 	m.foreignKey, err = ecdsa.GenerateKey(elliptic.P256(), rand.Reader)
@@ -228,7 +298,7 @@ func c01NewMaterial(t *testing.T, envU *verifEnv, deniedKey *ecdsa.PrivateKey) *
 	m.foreignCA, err = x509.ParseCertificate(der)
 	c01Must(err)
 	st := envU.state
-	mainCA := st.caCertDer[len(st.caCertDer)-1]
+	mainCA := verifMainCADer(st)
 	pub := &m.keys.ec.PublicKey
 	nb := time.Now().Add(-50 * time.Second)
 	m.chains["km-alice"] = envU.keymasterChain("alice", nb, pub)
@@ -238,6 +308,7 @@ func c01NewMaterial(t *testing.T, envU *verifEnv, deniedKey *ecdsa.PrivateKey) *
 	_, m.chains["foreign-alice"] = verifClientChain(der, m.foreignKey, "alice", nb, pub, nil)
 	blocks := []net.IPNet{mustCIDR("10.0.0.0/8")}
 	m.chains["ip-svc"] = envU.ipRestrictedChain("svc-automation", blocks, pub)
+	m.chains["ip-local"] = envU.ipRestrictedChain("svc-automation", []net.IPNet{mustCIDR("127.0.0.0/8")}, pub)
 	m.chains["ip-mallory"] = envU.ipRestrictedChain("mallory", blocks, pub)
 	_, m.chains["role-noext"] = verifClientChain(st.selfRoleCaCertDer, st.Signer, "svc-automation", nb, pub, nil)
 	_, m.chains["role-corrupt"] = verifClientChain(st.selfRoleCaCertDer, st.Signer, "svc-automation", nb, pub,
@@ -328,8 +399,9 @@ func c01RealTLS(t *testing.T, w *c01Worker, shapes []c01Shape) []c01TLSCase {
 }
 
 const (
-	c01Inside  = "10.9.8.7:40000"
-	c01Outside = "192.168.1.1:40000"
+	c01Inside   = "10.9.8.7:40000"
+	c01Outside  = "192.168.1.1:40000"
+	c01Loopback = "127.0.0.1:40000"
 )
 
 func c01Shapes() []c01Shape {
@@ -534,10 +606,54 @@ func c01Shapes() []c01Shape {
 			req.AddCookie(authCookie(m.static["foreign"]))
 			req.SetBasicAuth("alice", "alicepw")
 		}})
+	// 74..82 the client address of an IP-restricted certificate is the TCP peer, whatever the
+	// forwarding headers of the request claim
+	fwdShape := func(name, chain, remote, peer string, hdr map[string]string, proves []c01Proof) c01Shape {
+		var dec *c01Proof
+		if len(proves) > 0 {
+			dec = &proves[0]
+		}
+		sh := tlsShape(name, chain, remote, 3, proves, dec, nil)
+		sh.class = "tls-forwarded:" + chain + ":peer=" + peer
+		ap := sh.apply
+		sh.apply = func(m *c01Material, env *verifEnv, req *http.Request) {
+			ap(m, env, req)
+			for k, v := range hdr {
+				req.Header.Set(k, v)
+			}
+		}
+		return sh
+	}
+	in := "10.9.8.7"
+	out := "192.168.1.1"
+	s = append(s, fwdShape("IP-restricted certificate for 10.0.0.0/8 from 127.0.0.1, no forwarding header", "ip-svc", c01Loopback, "loopback", nil, nil))
+	s = append(s, fwdShape("IP-restricted certificate for 10.0.0.0/8 from 127.0.0.1, X-Forwarded-For inside", "ip-svc", c01Loopback, "loopback", map[string]string{"X-Forwarded-For": in}, nil))
+	s = append(s, fwdShape("IP-restricted certificate for 10.0.0.0/8 from 127.0.0.1, X-Real-Ip inside", "ip-svc", c01Loopback, "loopback", map[string]string{"X-Real-Ip": in}, nil))
+	s = append(s, fwdShape("IP-restricted certificate for 10.0.0.0/8 from 127.0.0.1, X-Forwarded-For list starting inside + X-Real-Ip inside", "ip-svc", c01Loopback, "loopback",
+		map[string]string{"X-Forwarded-For": in + ", 203.0.113.9", "X-Real-Ip": in}, nil))
+	s = append(s, fwdShape("IP-restricted certificate for 10.0.0.0/8 from outside, forwarding headers inside", "ip-svc", c01Outside, "outside",
+		map[string]string{"X-Forwarded-For": in, "X-Real-Ip": in}, nil))
+	s = append(s, fwdShape("IP-restricted certificate for 10.0.0.0/8 from inside, forwarding headers outside", "ip-svc", c01Inside, "inside",
+		map[string]string{"X-Forwarded-For": out, "X-Real-Ip": out}, []c01Proof{ipSvc}))
+	s = append(s, fwdShape("IP-restricted certificate for 10.0.0.0/8 from 127.0.0.1, Forwarded: for=inside", "ip-svc", c01Loopback, "loopback",
+		map[string]string{"Forwarded": "for=" + in + ";proto=https"}, nil))
+	s = append(s, fwdShape("main-CA certificate with address extension from 127.0.0.1, forwarding headers inside", "main-ip-svc", c01Loopback, "loopback",
+		map[string]string{"X-Forwarded-For": in, "X-Real-Ip": in}, []c01Proof{kmSvc}))
+	s = append(s, fwdShape("IP-restricted certificate for 127.0.0.0/8 from 127.0.0.1, forwarding headers outside", "ip-local", c01Loopback, "loopback",
+		map[string]string{"X-Forwarded-For": out, "X-Real-Ip": out}, []c01Proof{ipSvc}))
 	return s
 }
 
-var c01Types = []string{"ssh", "x509", "x509-kubernetes", "bogus"}
+// type index 4 = an SSH certificate on an ssh-ed25519 user key
+var c01Types = []string{"ssh", "x509", "x509-kubernetes", "bogus", "ssh"}
+
+// which signers are loaded (the last component of a case): 0 main only, 1 none, 2 main and Ed25519,
+// 3 Ed25519 only; odd = sealed
+var c01KeyStates = []string{"main", "none", "main+ed25519", "ed25519-only"}
+
+// block C of the enumeration: (key state, type) combinations beyond the basic product
+var c01KsCombos = [][2]int{{2, 0}, {2, 4}, {2, 1}, {3, 0}, {3, 4}, {3, 1}, {0, 4}, {1, 4}}
+var c01QuickCCfgs = []int{1, 4, 511}
 var c01HTTPMethods = []string{"POST", "GET", "PUT"}
 
 type c01Case struct{ cfg, shp, ty, m, sealed int }
@@ -549,6 +665,13 @@ func c01QuickCase(i, nShapes int) c01Case {
 	if i < a {
 		return c01Case{i / nShapes, i % nShapes, 0, 0, 0}
 	}
+	if b := 23 * 8 * nShapes; i >= a+b {
+		j := i - a - b
+		shp := j % nShapes
+		j /= nShapes
+		combo := c01KsCombos[j/3]
+		return c01Case{c01QuickCCfgs[j%3], shp, combo[1], 0, combo[0]}
+	}
 	j := i - a
 	shp := j % nShapes
 	j /= nShapes
@@ -558,6 +681,12 @@ func c01QuickCase(i, nShapes int) c01Case {
 }
 
 func c01FullCase(i, nShapes int) c01Case {
+	if a := c01NCfgs * nShapes * 24; i >= a {
+		j := i - a
+		combo := c01KsCombos[j%len(c01KsCombos)]
+		j /= len(c01KsCombos)
+		return c01Case{j / nShapes, j % nShapes, combo[1], 0, combo[0]}
+	}
 	sealed := i % 2
 	i /= 2
 	m := i % 3
@@ -570,6 +699,11 @@ func c01FullCase(i, nShapes int) c01Case {
 type c01Worker struct {
 	envU, envS *verifEnv
 	mat        *c01Material
+	// the signer-state dimension: envs[ks], mats[ks] (sealed states have no signer of their own: the
+	// credentials presented there are those of the unsealed state with the same main key, which
+	// the sealed states list as a trusted peer key)
+	envs [4]*verifEnv
+	mats [4]*c01Material
 }
 
 func c01Edit(deniedFP string, cfg []string) func(c *AppConfigFile, dir string) {
@@ -581,13 +715,41 @@ func c01Edit(deniedFP string, cfg []string) func(c *AppConfigFile, dir string) {
 	}
 }
 
+// as c01Edit, plus: an Ed25519 CA key file (under the passphrase of the main key) and/or the state's
+// own main key listed in keymaster_public_keys_filename
+func c01EditKeys(deniedFP string, cfg []string, edPEM []byte, listMain bool) func(c *AppConfigFile, dir string) {
+	base := c01Edit(deniedFP, cfg)
+	return func(c *AppConfigFile, dir string) {
+		base(c, dir)
+		if edPEM != nil {
+			fn := filepath.Join(dir, "ed25519Key.asc")
+			c01Must(ioutil.WriteFile(fn, c01Armor(edPEM, verifPassphrase), 0600))
+			c.Base.Ed25519CAFilename = fn
+		}
+		if listMain {
+			c01WritePublicKeys(c, dir, [][]byte{c01OwnMainPubLine(c)})
+		}
+	}
+}
+
 func c01NewWorker(t *testing.T, deniedKey *ecdsa.PrivateKey, deniedFP string) *c01Worker {
 	w := &c01Worker{}
+	edPriv, edPEM := c01NewEdKey()
 	w.envU = verifSetup(t, c01Edit(deniedFP, []string{"U2F"}))
-	w.envS = verifSetupSealed(t, c01Edit(deniedFP, []string{"U2F"}))
-	w.envU.state.passwordAttemptGlobalLimiter = rate.NewLimiter(rate.Inf, 1)
-	w.envS.state.passwordAttemptGlobalLimiter = rate.NewLimiter(rate.Inf, 1)
+	w.envS = verifSetupSealed(t, c01EditKeys(deniedFP, []string{"U2F"}, nil, true))
+	envUE := verifSetup(t, c01EditKeys(deniedFP, []string{"U2F"}, edPEM, true))
+	envH := verifSetupSealed(t, c01EditKeys(deniedFP, []string{"U2F"}, edPEM, true))
+	envH.c01HalfLoad(edPriv)
+	if envUE.state.Ed25519Signer == nil || envH.state.Signer != nil || envH.state.Ed25519Signer == nil || w.envS.state.Signer != nil || len(envH.state.KeymasterPublicKeys) != 1 {
+		t.Fatalf("harness: signer states not as intended")
+	}
+	w.envs = [4]*verifEnv{w.envU, w.envS, envUE, envH}
+	for _, e := range w.envs {
+		e.state.passwordAttemptGlobalLimiter = rate.NewLimiter(rate.Inf, 1)
+	}
 	w.mat = c01NewMaterial(t, w.envU, deniedKey)
+	matE := c01NewMaterial(t, envUE, deniedKey)
+	w.mats = [4]*c01Material{w.mat, w.mat, matE, w.mat}
 	return w
 }
 
@@ -599,22 +761,29 @@ type c01Obs struct {
 }
 
 func (w *c01Worker) run(shapes []c01Shape, c c01Case, accept string) c01Obs {
-	env := w.envU
-	if c.sealed == 1 {
-		env = w.envS
+	env := w.envs[c.sealed]
+	mat := w.mats[c.sealed]
+	if env == nil { // a worker assembled around one state (the YAML-path cross check)
+		env, mat = w.envU, w.mat
+		if c.sealed == 1 {
+			env = w.envS
+		}
 	}
 	sh := shapes[c.shp]
 	env.state.Config.Base.AllowedAuthBackendsForCerts = c01Cfg(c.cfg)
 	ty := c01Types[c.ty]
-	keyData := w.mat.keys.sshPub
+	keyData := mat.keys.sshPub
 	if ty == "x509" || ty == "x509-kubernetes" {
-		keyData = w.mat.keys.pemPub
+		keyData = mat.keys.pemPub
+	}
+	if c.ty == 4 {
+		keyData = mat.edUserKey
 	}
 	req := verifCertgenRequest(c01HTTPMethods[c.m], c01Names[sh.target], ty, keyData, nil, nil)
 	if accept != "" {
 		req.Header.Set("Accept", accept)
 	}
-	sh.apply(w.mat, env, req)
+	sh.apply(mat, env, req)
 	rr, _ := env.serve(req)
 	if sh.cleanup != nil {
 		sh.cleanup(env)
@@ -650,12 +819,23 @@ func c01Judge(res *verifResult, shapes []c01Shape, c c01Case, o c01Obs, variant 
 	sh := shapes[c.shp]
 	cfg := c01Cfg(c.cfg)
 	target := c01Names[sh.target]
+	sealed := c.sealed%2 == 1
+	userKey := "ecdsa"
+	if c.ty == 4 {
+		userKey = "ed25519"
+	}
 	desc := map[string]interface{}{"cfg": cfg, "cfg_index": c.cfg, "shape": c.shp, "credential": sh.name, "target": target,
-		"type": c01Types[c.ty], "method": c01HTTPMethods[c.m], "sealed": c.sealed == 1, "variant": variant}
+		"type": c01Types[c.ty], "user_key": userKey, "method": c01HTTPMethods[c.m], "sealed": sealed, "signers_loaded": c01KeyStates[c.sealed], "variant": variant}
 	obs := map[string]interface{}{"status": o.status, "certificate_for": o.user, "kind": o.kind}
 	key := func(oracle string) string { return "C01:" + oracle + ":" + sh.class }
+	if o.class >= 2 && sealed {
+		res.hit(verifHit{Key: "C01:issued-sealed:signers=" + c01KeyStates[c.sealed] + ":" + strings.SplitN(sh.class, ":", 2)[0], Oracle: "a sealed server (main CA signer absent, whatever else is loaded) answers every request to the certificate endpoint with an error and signs nothing",
+			What: fmt.Sprintf("signers loaded: %s; allowed_auth_backends_for_certs=%q, %s, %s /certgen/%s type=%s user key %s -> %d with a %s certificate for %q",
+				c01KeyStates[c.sealed], cfg, sh.name, c01HTTPMethods[c.m], target, c01Types[c.ty], userKey, o.status, o.kind, o.user), Case: desc, Observed: obs})
+		return
+	}
 	if o.class >= 2 {
-		ok := c.sealed == 0 && c01HTTPMethods[c.m] == "POST" && o.user == target
+		ok := !sealed && c01HTTPMethods[c.m] == "POST" && o.user == target
 		if ok {
 			ok = false
 			for _, p := range sh.proves {
@@ -667,7 +847,7 @@ func c01Judge(res *verifResult, shapes []c01Shape, c c01Case, o c01Obs, variant 
 		if !ok {
 			res.hit(verifHit{Key: key("issued-unqualified"), Oracle: "a certificate came back although the request proves no valid credential whose factors the operator's list accepts (or sealed / wrong target / not POST)",
 				What: fmt.Sprintf("allowed_auth_backends_for_certs=%q, %s, %s /certgen/%s type=%s sealed=%v -> %d with a %s certificate for %q",
-					cfg, sh.name, c01HTTPMethods[c.m], target, c01Types[c.ty], c.sealed == 1, o.status, o.kind, o.user), Case: desc, Observed: obs})
+					cfg, sh.name, c01HTTPMethods[c.m], target, c01Types[c.ty], sealed, o.status, o.kind, o.user), Case: desc, Observed: obs})
 		}
 		return
 	}
@@ -682,7 +862,8 @@ func c01Judge(res *verifResult, shapes []c01Shape, c c01Case, o c01Obs, variant 
 	if dec == nil && strings.HasPrefix(sh.class, "origin:") && c01HTTPMethods[c.m] == "GET" {
 		dec = &sh.proves[0]
 	}
-	if dec != nil && c.sealed == 0 && c01HTTPMethods[c.m] == "POST" && c01Types[c.ty] != "bogus" && dec.user == target && c01Qualifies(cfg, dec.level) {
+	// (an ssh-ed25519 user key can only be certified when an Ed25519 CA is loaded)
+	if dec != nil && !sealed && c01HTTPMethods[c.m] == "POST" && c01Types[c.ty] != "bogus" && !(c.ty == 4 && c.sealed != 2) && dec.user == target && c01Qualifies(cfg, dec.level) {
 		res.hit(verifHit{Key: key("refused-qualified"), Oracle: "a user who completed an acceptable factor is served",
 			What: fmt.Sprintf("allowed_auth_backends_for_certs=%q, %s, POST /certgen/%s type=%s -> %d, no certificate", cfg, sh.name, target, c01Types[c.ty], o.status),
 			Case: desc, Observed: obs})
@@ -694,17 +875,17 @@ func TestVerif_C01(t *testing.T) {
 	shapes := c01Shapes()
 	nShapes := len(shapes)
 	thorough := verifThorough()
-	res := newVerifResult(fmt.Sprintf("every list of allowed_auth_backends_for_certs (512 subsets of the nine method names + 16 lists with other order, duplicates, unknown and near-miss strings) x %d credential shapes x {ssh, x509, x509-kubernetes, bogus} x {POST, GET, PUT} x {unsealed, sealed}; quick: all lists x all shapes at (ssh, POST, unsealed) plus all shapes under 8 lists for the other 23 combinations; thorough: the full product; non-trivial = the request carried a credential the property accepts; distinct by (list, shape, type, method, sealed, outcome)", nShapes))
+	res := newVerifResult(fmt.Sprintf("every list of allowed_auth_backends_for_certs (512 subsets of the nine method names + 16 lists with other order, duplicates, unknown and near-miss strings) x %d credential shapes x {ssh, x509, x509-kubernetes, bogus} x {POST, GET, PUT} x {unsealed, sealed}, plus the signer-state block {main+Ed25519 signer, Ed25519 signer only} x {ssh on an ECDSA user key, ssh on an ssh-ed25519 user key, x509} and the ssh-ed25519 user key on {main signer only, no signer}; quick: all lists x all shapes at (ssh, POST, unsealed) plus all shapes under 8 lists for the other 23 combinations plus the signer-state block under 3 lists; thorough: the full product and the signer-state block under every list; non-trivial = the request carried a credential the property accepts; distinct by (list, shape, type, method, sealed, outcome)", nShapes))
 	deniedKey, err := ecdsa.GenerateKey(elliptic.P256(), rand.Reader)
 	c01Must(err)
 	deniedFP, err := getKeyFingerprint(&deniedKey.PublicKey)
 	c01Must(err)
-	total := c01NCfgs*nShapes + 23*8*nShapes
+	total := c01NCfgs*nShapes + 23*8*nShapes + len(c01KsCombos)*len(c01QuickCCfgs)*nShapes
 	decode := c01QuickCase
 	modelFn := "quick_case"
 	modelTotal := "quick_total"
 	if thorough {
-		total = c01NCfgs * nShapes * 24
+		total = c01NCfgs*nShapes*24 + c01NCfgs*nShapes*len(c01KsCombos)
 		decode = c01FullCase
 		modelFn = "full_case"
 		modelTotal = "full_total"
@@ -721,6 +902,7 @@ func TestVerif_C01(t *testing.T) {
 		workers[wi] = c01NewWorker(t, deniedKey, deniedFP)
 		// the forged tokens referenced by the two-cookie shapes
 		shapes[41].apply(workers[wi].mat, workers[wi].envU, verifCertgenRequest("POST", "alice", "ssh", "", nil, nil))
+		shapes[41].apply(workers[wi].mats[2], workers[wi].envs[2], verifCertgenRequest("POST", "alice", "ssh", "", nil, nil))
 	}
 	t0 := time.Now()
 	for wi := 0; wi < nWorkers; wi++ {
@@ -740,7 +922,10 @@ func TestVerif_C01(t *testing.T) {
 		o := obs[i]
 		c01Judge(res, shapes, c, o, "")
 		sh := shapes[c.shp]
-		res.eval(fmt.Sprintf("%d|%d|%d|%d|%d|%d", c.cfg, c.shp, c.ty, c.m, c.sealed, o.class), len(sh.proves) > 0 && c.sealed == 0)
+		res.eval(fmt.Sprintf("%d|%d|%d|%d|%d|%d", c.cfg, c.shp, c.ty, c.m, c.sealed, o.class), len(sh.proves) > 0 && (c.sealed%2 == 0 || c.sealed == 3))
+		if c.sealed >= 2 || c.ty == 4 {
+			res.bump("signers-loaded:" + c01KeyStates[c.sealed])
+		}
 		if o.class >= 2 {
 			res.bump("issued")
 			res.bump("issued:" + o.kind)
@@ -842,8 +1027,8 @@ func TestVerif_C01(t *testing.T) {
 	var idx strings.Builder
 	for i := 0; i < total; i++ {
 		c := decode(i, nShapes)
-		idx.WriteString(fmt.Sprintf("%d\tcfg#%d=%q shape#%d=%s %s /certgen/%s type=%s sealed=%d -> status=%d class=%d %s\n", i, c.cfg, c01Cfg(c.cfg), c.shp,
-			shapes[c.shp].name, c01HTTPMethods[c.m], c01Names[shapes[c.shp].target], c01Types[c.ty], c.sealed, obs[i].status, obs[i].class, obs[i].user))
+		idx.WriteString(fmt.Sprintf("%d\tcfg#%d=%q shape#%d=%s %s /certgen/%s type#%d=%s signers=%s -> status=%d class=%d %s\n", i, c.cfg, c01Cfg(c.cfg), c.shp,
+			shapes[c.shp].name, c01HTTPMethods[c.m], c01Names[shapes[c.shp].target], c.ty, c01Types[c.ty], c01KeyStates[c.sealed], obs[i].status, obs[i].class, obs[i].user))
 	}
 	ioutil.WriteFile(filepath.Join(verifOut(), "CasesC01.idx"), []byte(idx.String()), 0644)
 	for _, i := range []int{96*nShapes + 11, 64*nShapes + 11, 36*nShapes + 6, 1*nShapes + 56} {
@@ -852,7 +1037,7 @@ func TestVerif_C01(t *testing.T) {
 		}
 		c := decode(i, nShapes)
 		res.sample(map[string]interface{}{"allowed_auth_backends_for_certs": c01Cfg(c.cfg), "credential": shapes[c.shp].name, "type": c01Types[c.ty],
-			"method": c01HTTPMethods[c.m], "sealed": c.sealed == 1, "status": obs[i].status, "certificate_for": obs[i].user})
+			"method": c01HTTPMethods[c.m], "signers_loaded": c01KeyStates[c.sealed], "status": obs[i].status, "certificate_for": obs[i].user})
 	}
 	res.Exhaustive = true
 	res.write(t, "TestVerif_C01")
